@@ -106,8 +106,19 @@ class CallGraph(object):
                                     lm = model.lookup_method(om, oc, kw.value.attr)
                                     if lm:
                                         targets.add((lm[0].name, lm[0].qualname_of(lm[2])))
+                                # the constructor may store the callback under another attribute name:  self.on_call = call_function
+                                attrs = set([kw.arg])
+                                init = model.lookup_method(cm, cc, '__init__')
+                                if init:
+                                    s_ = sa.self_name(init[2])
+                                    for st in walk_no_defs(init[2]):
+                                        if isinstance(st, ast.Assign) and isinstance(st.value, ast.Name) and st.value.id == kw.arg:
+                                            for t in st.targets:
+                                                if isinstance(t, ast.Attribute) and isinstance(t.value, ast.Name) and t.value.id == s_:
+                                                    attrs.add(t.attr)
                                 for xm, xc in model.mro(cm, cc):
-                                    out.setdefault((xc.name, kw.arg), set()).update(targets)
+                                    for a_ in attrs:
+                                        out.setdefault((xc.name, a_), set()).update(targets)
         return out
 
     def _find_attr_classes(self):
